@@ -8,3 +8,5 @@ for p in "$@"; do
   (cd /verif && ./check $p --tier quick 2>&1 | grep -E "VIOLATION|KNOWN|^\[|INTERNAL|failed" | cut -c1-300)
 done
 git -C /repo checkout -- .
+# evidence files are written by every run; the ones just written describe the changed tree: put the committed ones back
+git -C /verif checkout -- evidence 2>/dev/null
